@@ -1,1 +1,4 @@
+//! refm — reference models (DESIGN.md section 3). Deliberately naive; shares no algorithm with
+//! the winterfell code it judges and does not depend on winterfell at all.
 
+pub mod codec;
